@@ -404,6 +404,15 @@ pub fn generate(tier: Tier, rng: &mut Rng) -> Vec<Case> {
             }
         }
     }
+    // a failing operand between logging ones: what precedes it is evaluated once, what follows not
+    // at all, and the call does not happen — for variadic, positional and receiver signatures
+    for f in ["max", "min", "h3", "m2", "ta"] {
+        for pos in 0..3usize {
+            let args: Vec<String> = (0..3).map(|i| if i == pos { "(1 / 0)".to_string() } else { format!("t({})", i + 1) }).collect();
+            push(format!("{f}({})", args.join(", ")), None, usize::MAX, vec!["failing-operand"], &mut out);
+            push(format!("{}.{f}({})", args[0], args[1..].join(", ")), None, usize::MAX, vec!["failing-operand"], &mut out);
+        }
+    }
     // nested chains: the number of host calls must be linear in the depth (never exponential)
     for depth in [1usize, 2, 3, 5, 8, 13, 21, 30, 40] {
         let mut s = "t(1)".to_string();
